@@ -113,15 +113,20 @@ func (e *Engine) enterBlock(s *State, f *Frame, probe *probeRec) bool {
 		}
 		vals = append(vals, e.val(s, f, phi.Edges[idx]))
 	}
+	li := f.loops
 	for i := 0; i < nphi; i++ {
 		phi := b.Instrs[i].(*ssa.Phi)
 		f.env[phi] = vals[i]
 		if phi.Comment != "" {
 			f.names[phi.Comment] = nameRef{v: vals[i]}
+			if ord, isH := li.ordinal[b]; isH {
+				// loop-carried variables are also addressable as <name><loop ordinal> (nested range loops
+				// all call their index `rangeindex`)
+				f.names[fmt.Sprintf("%s%d", phi.Comment, ord)] = nameRef{v: vals[i]}
+			}
 		}
 	}
 	f.ip = nphi
-	li := f.loops
 	body, isHeader := li.body[b]
 	if probe != nil && len(s.stack) == probe.depth {
 		if isHeader && b == probe.header && f.prev != nil && body[f.prev] {
@@ -233,6 +238,9 @@ func (e *Engine) havocLoop(s *State, f *Frame, b *ssa.BasicBlock, nphi int, writ
 		f.env[phi] = v
 		if phi.Comment != "" {
 			f.names[phi.Comment] = nameRef{v: v}
+			if ord, isH := f.loops.ordinal[b]; isH {
+				f.names[fmt.Sprintf("%s%d", phi.Comment, ord)] = nameRef{v: v}
+			}
 		}
 	}
 	for _, k := range sortedKeys(writes) {
